@@ -664,6 +664,22 @@ fn gen_source_bytes(g: &mut Gen, max_len: usize) -> Vec<u8> {
     crate::bits::bits_to_bytes(&bits)
 }
 
+/// libFuzzer entry: the input bytes are a choice tape (two bytes per word).
+pub fn fuzz_entry(data: &[u8]) -> Result<(), String> {
+    let tape: Vec<u32> = data.chunks(2).map(|c| ((c[0] as u32) << 24) | ((*c.get(1).unwrap_or(&0) as u32) << 16)).collect();
+    match random_case(&mut Gen::new(&tape)) {
+        Verdict::Fail { msg, .. } => Err(msg),
+        _ => Ok(()),
+    }
+}
+
+pub fn fuzz_replay(data: &[u8]) -> Verdict {
+    match fuzz_entry(data) {
+        Ok(()) => Verdict::pass(true, fnv64(data)),
+        Err(m) => Verdict::fail(m),
+    }
+}
+
 fn random_case(g: &mut Gen) -> Verdict {
     let src = match g.below(3) {
         0 => SourceKind::Slice,
@@ -832,6 +848,14 @@ pub fn run(ctx: &Ctx) -> i32 {
     reports.push(exhaustive_suite(ctx, "bounded_exhaustive_sequences", items, &move |i, acc| enum_item(len, i, acc)));
     let cases = ctx.tier.pick(1_500_000u64, 12_000_000u64);
     reports.push(tape_suite(ctx, "random_sequences", cases, 700, &random_case));
+    if ctx.tier == Tier::Thorough && reports.iter().all(|r| r.failure.is_none()) {
+        let seeds: Vec<Vec<u8>> = generate_tapes(ctx.seed ^ 0xC14, 300, 700).iter().map(|t| t.iter().flat_map(|w| [(w >> 24) as u8, (w >> 16) as u8]).collect()).collect();
+        reports.push(fuzz_campaign(
+            ctx,
+            &FuzzPlan { target: "reader_ops", procs: ctx.threads.min(8), runs: 2_000_000, max_len: 1400, timeout_s: 30, seeds },
+            &|bytes| fuzz_replay(bytes),
+        ));
+    }
     let mut extra = Map::new();
     extra.insert("alphabet_size".into(), json!(alphabet().len()));
     extra.insert("fixed_sources".into(), json!(fixed_sources().len()));
@@ -851,6 +875,9 @@ pub fn run(ctx: &Ctx) -> i32 {
 }
 
 pub fn replay(suite: &str, case: &Value) -> Option<Verdict> {
+    if case["kind"] == "bytes" {
+        return Some(fuzz_replay(&crate::bits::unhex(case["hex"].as_str()?)));
+    }
     match suite {
         "random_sequences" => Some(random_case(&mut Gen::new(&super::tape_of(case)?))),
         "bounded_exhaustive_sequences" => {
